@@ -50,10 +50,14 @@ POOL = [
     {"text": None, "ts": TS1, "kw": {}},  # a call that fails
     {"text": "mon 8 #a", "ts": TS1, "kw": {"max_stack_depth": 0, "scorer": "nb"}},
     {"text": "5pm", "ts": TS1, "kw": {"relative_match_len": 0.5}},
+    # values that collide on coarse keys (same month, different year; leap day with and without year)
+    {"text": "29.02.", "ts": TS1, "kw": {}},
+    {"text": "29.02.2019 9-5", "ts": TS1, "kw": {}},
+    {"text": "29.02.2020", "ts": TS2, "kw": {"latent_time": False}},
 ]
 FAIL = 7
-OPENABLE = [0, 2, 3, 4, 5, 9]
-MERGE_POOL = [0, 1, 3, 4, 5, 8, 9]
+OPENABLE = [0, 3, 5, 9, 10, 11]
+MERGE_POOL = [0, 1, 3, 4, 5, 8, 9, 10, 11, 12]
 SCHED_PAIRS_QUICK = [(9, 6, "one", "one"), (9, 9, "gen", "one")]
 SCHED_PAIRS_THOROUGH = SCHED_PAIRS_QUICK + [(9, 0, "one", "gen"), (9, 4, "one", "gen"), (0, 3, "one", "gen"), (4, 4, "gen", "gen"), (8, 0, "gen", "one")]
 LINE_PAIRS_THOROUGH = [(9, 6, "one", "one"), (9, 4, "one", "gen")]
@@ -127,7 +131,18 @@ runner.setup_import_path()
 from qv.checks import C12
 from qv import sched, alphabet
 from qv.common import lib, ts_of
-out = {"one": [C12.call_one(i) for i in range(len(C12.POOL))], "gen": [C12.call_gen(i) for i in range(len(C12.POOL))]}
+sel = [int(x) for x in sys.argv[4].split(",")] if len(sys.argv) > 4 and sys.argv[4] else list(range(len(C12.POOL)))
+what = sys.argv[5] if len(sys.argv) > 5 else "both"
+out = {"one": {}, "gen": {}}
+for i in sel:
+    if what in ("one", "both"):
+        out["one"][i] = C12.call_one(i)
+    if what in ("gen", "both"):
+        out["gen"][i] = C12.call_gen(i)
+if what != "both":
+    print(json.dumps(out)); sys.exit(0)
+out["one"] = [out["one"][i] for i in range(len(C12.POOL))]
+out["gen"] = [out["gen"][i] for i in range(len(C12.POOL))]
 corp = []
 for text, ts in alphabet.corpus_sentences():
     corp.append(C12._oc(lib()[0](text, ts=ts_of(ts + ":00"), timeout=0)))
@@ -147,16 +162,40 @@ def body(i, kind):
     return (lambda: call_one(i)) if kind == "one" else (lambda: call_gen(i))
 
 
-def fresh_reference(hash_seed, counts=False):
+def _interp(hash_seed, args):
     env = dict(os.environ, PYTHONHASHSEED=str(hash_seed), PYTHONWARNINGS="ignore", QV_REPO=runner.REPO)
-    p = subprocess.run([sys.executable, "-c", _REF_SCRIPT, runner.REPO, runner.HERE] + (["counts"] if counts else []), capture_output=True, text=True, env=env)
+    p = subprocess.run([sys.executable, "-c", _REF_SCRIPT, runner.REPO, runner.HERE] + args, capture_output=True, text=True, env=env)
     if p.returncode != 0:
         raise RuntimeError("reference interpreter failed: " + p.stderr[-800:])
     return json.loads(p.stdout.strip().splitlines()[-1])
 
 
+def fresh_reference(hash_seed, counts=False):
+    """all pool entries + corpus evaluated one after the other in ONE fresh interpreter (used for the hash-seed comparison)"""
+    return _interp(hash_seed, ["counts" if counts else "-"])
+
+
+def isolated_reference():
+    """every pool entry evaluated in its OWN fresh interpreter (one for ctparse, one for ctparse_gen): the reference
+    table must not itself depend on the order in which the pool is evaluated"""
+    from concurrent.futures import ThreadPoolExecutor
+
+    jobs = [(i, w) for i in range(len(POOL)) for w in ("one", "gen")]
+    with ThreadPoolExecutor(8) as ex:
+        res = list(ex.map(lambda j: _interp(0, ["-", str(j[0]), j[1]]), jobs))
+    one = [None] * len(POOL)
+    gen = [None] * len(POOL)
+    for (i, w), r in zip(jobs, res):
+        if w == "one":
+            one[i] = r["one"][str(i)]
+        else:
+            gen[i] = r["gen"][str(i)]
+    return one, gen
+
+
 REF = None
 FP0 = None
+FP_EVERY_OP = False
 
 
 def _histories(depth):
@@ -185,8 +224,12 @@ def _histories(depth):
 
 
 def plan(tier, seed):
-    global REF
+    global REF, FP_EVERY_OP
+    FP_EVERY_OP = tier == "thorough"
     REF = fresh_reference(0, counts=True)
+    one, gen_ = isolated_reference()
+    REF["order_dependent"] = [i for i in range(len(POOL)) if one[i] != REF["one"][i] or gen_[i] != REF["gen"][i]]
+    REF["one"], REF["gen"] = one, gen_
     _scorer("dummy"), _scorer("nb")  # built once before the workers fork (object construction only, no parse)
     depth = 3 if tier == "quick" else 4
     hist = _histories(depth)
@@ -271,6 +314,9 @@ def run_case(case):
     v = []
     if kind == "seed":
         other = fresh_reference(case[1])
+        if case[1] == 0 and REF.get("order_dependent"):
+            i = REF["order_dependent"][0]
+            v.append(viol({"kind": "history_changes_result", "op": "fresh process, pool evaluated in sequence"}, "pool entry {} ({!r}) evaluated alone in a fresh interpreter differs from its value after the preceding pool entries in one interpreter".format(i, POOL[i]["text"])))
         for part in ("one", "gen", "corpus"):
             if other[part] != REF[part]:
                 k = next(i for i in range(len(REF[part])) if other[part][i] != REF[part][i])
@@ -309,7 +355,8 @@ def run_case(case):
             elif op[0] == "ABANDON":
                 streams[op[1]]["g"].close()
                 streams[op[1]]["closed"] = True
-            ok = _check_fp(v, what, fp0)
+            # thorough: fingerprint after every operation; quick: after the last one (a modification of rule base / model persists)
+            ok = _check_fp(v, what, fp0) if (FP_EVERY_OP or n == len(ops) - 1) else True
             keys.append(hash((F.digest(_fp()) if not ok else "fp0", tuple(sorted((s["p"], s["pos"], s["closed"]) for s in streams)))))
             if v:
                 break
@@ -409,4 +456,5 @@ def finalize(agg, tier, seed):
 def replay_case(case, rec):
     global REF
     REF = fresh_reference(0, counts=False)
+    REF["one"], REF["gen"] = isolated_reference()
     return run_case(tuple(tuple(x) if isinstance(x, list) and case[0] == "hist" and False else x for x in case))
